@@ -892,18 +892,28 @@ func (s *SwapV2) loadBuyOrders(pair *PairV2, fromOrder *Limit, limit int) []uint
 
 	k := 1
 	var slice []uint32
-	for i, id := range ids {
-		if id == fromOrder.ID() {
-			if len(ids[i+1:]) < limit {
-				slice = append(slice, ids[i+1:]...)
-				k += len(ids[i+1:])
-				fromOrder = pair.order(ids[len(ids)-1])
-				break
-			}
+	if fromOrder == nil && len(ids) != 0 {
+		// The head of the list is cached but shorter than asked for: take it and go on reading behind it.
+		// (Reading from the top again would return, and cache, the same ids a second time.)
+		slice = append(slice, ids...)
+		k += len(ids)
+		fromOrder = pair.order(ids[len(ids)-1])
+	} else {
+		for i, id := range ids {
+			if id == fromOrder.ID() {
+				if len(ids[i+1:]) < limit {
+					slice = append(slice, ids[i+1:]...)
+					k += len(ids[i+1:])
+					fromOrder = pair.order(ids[len(ids)-1])
+					break
+				}
 
-			return ids[i+1 : i+limit+1 : i+limit+1]
+				return ids[i+1 : i+limit+1 : i+limit+1]
+			}
 		}
 	}
+	// everything in slice so far comes from the cache; only what is read from the tree below is new
+	cached := len(slice)
 
 	if loadedAll {
 		return append(slice, 0)
@@ -936,7 +946,7 @@ func (s *SwapV2) loadBuyOrders(pair *PairV2, fromOrder *Limit, limit int) []uint
 		slice = append(slice, 0)
 	}
 
-	pair.setLoadedBuyOrders(append(ids, slice...))
+	pair.setLoadedBuyOrders(append(ids, slice[cached:]...))
 	return slice
 }
 
@@ -1003,18 +1013,28 @@ func (s *SwapV2) loadSellOrders(pair *PairV2, fromOrder *Limit, limit int) []uin
 	}
 	k := 1
 	var slice []uint32
-	for i, id := range ids {
-		if id == fromOrder.ID() {
-			if len(ids[i+1:]) < limit {
-				slice = append(slice, ids[i+1:]...)
-				k += len(ids[i+1:])
-				fromOrder = pair.order(ids[len(ids)-1])
-				break
-			}
+	if fromOrder == nil && len(ids) != 0 {
+		// The head of the list is cached but shorter than asked for: take it and go on reading behind it.
+		// (Reading from the top again would return, and cache, the same ids a second time.)
+		slice = append(slice, ids...)
+		k += len(ids)
+		fromOrder = pair.order(ids[len(ids)-1])
+	} else {
+		for i, id := range ids {
+			if id == fromOrder.ID() {
+				if len(ids[i+1:]) < limit {
+					slice = append(slice, ids[i+1:]...)
+					k += len(ids[i+1:])
+					fromOrder = pair.order(ids[len(ids)-1])
+					break
+				}
 
-			return ids[i+1 : i+limit+1 : i+limit+1]
+				return ids[i+1 : i+limit+1 : i+limit+1]
+			}
 		}
 	}
+	// everything in slice so far comes from the cache; only what is read from the tree below is new
+	cached := len(slice)
 
 	if loadedAll {
 		return append(slice, 0)
@@ -1047,7 +1067,7 @@ func (s *SwapV2) loadSellOrders(pair *PairV2, fromOrder *Limit, limit int) []uin
 		slice = append(slice, 0)
 	}
 
-	pair.setLoadedSellOrders(append(ids, slice...))
+	pair.setLoadedSellOrders(append(ids, slice[cached:]...))
 	return slice
 }
 
@@ -1096,6 +1116,11 @@ func (p *PairV2) updateDirtyOrders(list []uint32, lower bool) (orders []uint32, 
 
 	var pos int
 	for _, dirty := range dirties {
+		if len(limits) == 0 {
+			// Nothing is loaded and the list is not known to be complete (that would be a trailing nil): there is
+			// no position for the order yet. It stays unsorted until more of the list is loaded.
+			break
+		}
 		var isSet bool
 		limits, isSet, pos = addToList(limits, dirty, cmp, pos)
 		if isSet {
@@ -1167,8 +1192,10 @@ func (p *PairV2) orderSellLoadToIndex(index int) *Limit {
 						// но могут быть удаленные удаленных, проверим
 						for ; index > lastJ && lastJ >= 0 && resortedOrders[lastJ] != 0 && p.hasDeletedSellOrders() && unsets > 0; lastJ = len(resortedOrders) - 1 {
 							//log.Println("d")
-							fromOrder = p.order(resortedOrders[lastI])
-							loadedNextOrders := p.loadSellOrders(p, fromOrder, index-lastI+unsets)
+							// continue behind the last order of the re-sorted list (lastJ), not behind the point the
+							// previous read started from (lastI): that would read, and append, the same ids again
+							fromOrder = p.order(resortedOrders[lastJ])
+							loadedNextOrders := p.loadSellOrders(p, fromOrder, index-lastJ+unsets)
 							var resortLoadedNextOrders []uint32
 							resortLoadedNextOrders, unsets = p.updateDirtyOrders(loadedNextOrders, true)
 							resortedOrders = append(resortedOrders, resortLoadedNextOrders...)
@@ -1189,10 +1216,13 @@ func (p *PairV2) orderSellLoadToIndex(index int) *Limit {
 				orders = append(orders, loadedNextOrders...)
 			}
 		}
-	} else {
+	}
+	if len(orders) == 0 {
+		// nothing cached, or everything that was cached has just been dropped as deleted / to be re-sorted
 		num := index
 		for {
-			orders = append(orders, p.loadSellOrders(p, fromOrder, num+1)...)
+			loaded := p.loadSellOrders(p, fromOrder, num+1)
+			orders = append(orders, loaded...)
 			num = 0
 			if p.hasUnsortedSellOrders() || p.hasDeletedSellOrders() {
 				orders, num = p.updateDirtyOrders(orders, true)
@@ -1200,9 +1230,11 @@ func (p *PairV2) orderSellLoadToIndex(index int) *Limit {
 			if num <= 0 {
 				break
 			}
-			lenOrders := len(orders)
-			if lenOrders != 0 && orders[lenOrders-1] != 0 {
-				fromOrder = p.order(orders[lenOrders-1])
+			// Some of the ids just read were dropped (deleted or waiting to be re-sorted): read as many more,
+			// starting behind the last id READ. The filtered list may be empty, or end with a re-sorted order,
+			// and says nothing about how far the tree has been read.
+			if n := len(loaded); n != 0 && loaded[n-1] != 0 {
+				fromOrder = p.order(loaded[n-1])
 			} else {
 				break
 			}
